@@ -176,9 +176,16 @@ Definition regional_maximum_ties (image : list (list Z)) (mask : option (list (l
   let big_mask := tab (h + sh) (w + sw) (fun y x =>
         if (h0 <=? y) && (y <? h0 + H) && (h1 <=? x) && (x <? h1 + W)
         then mask_at mask (y - h0) (x - h1) else false) in
+  (* result = np.ones(image.shape, bool); if mask is not None: result[~mask] = False *)
+  let result0 := tab h w (fun _ _ => true) in
+  let result1 := match mask with
+                 | None => result0
+                 | Some m => tab h w (fun y x => if negb (get2 false m y x) then false
+                                                 else get2 false result0 y x)
+                 end in
   Some (fold_left (rm_step image big_mask st h w h0 h1)
                   (flat_map (fun i => map (fun j => (i, j)) (zrange sw)) (zrange sh))
-                  (tab h w (fun _ _ => true))).
+                  result1).
 
 (* ------------------------------------------------------------------ regional_maximum, ties not ok *)
 
